@@ -345,6 +345,62 @@ func TestVerifC13(t *testing.T) {
 		r.Eval("wrap:" + cls + fmt.Sprintf(",idlen=%d,record=%v", len(id), rec != nil))
 	})
 
+	// ---- ARGUMENT SHAPES through the wrappers: whatever SignHashed / VerifyHashed do with an argument of an unusual
+	//      shape, the id- and ZA-level entry points must do the same (they are defined as the hashed ones on SM3(ZA||M)):
+	//      private keys in shorter encodings, r and s longer or shorter than 32 bytes, a nil message
+	{
+		id := []byte("1234567812345678")
+		for q := 0; q < hk.N(12, 60); q++ {
+			d := randScalar(rng)
+			if q%3 == 0 {
+				d = new(big.Int).SetBytes(rng.Bytes(1 + rng.Intn(31))) // a value with leading zero bytes
+			}
+			if !ref.ValidPriv(d) {
+				continue
+			}
+			P := refPub(d)
+			px, py := ref.B32(P.X), ref.B32(P.Y)
+			za, _ := ref.SM2ZA(id, px, py)
+			var msg []byte
+			if q%4 != 0 {
+				msg = rng.Bytes(rng.Intn(50))
+			}
+			e := ref.SM2E(za, msg)
+			stream := rng.Bytes(32 * 6)
+			full := ref.B32(d)
+			encs := [][]byte{full, d.Bytes(), append([]byte{0}, d.Bytes()...)}
+			for _, priv := range encs {
+				if len(priv) > 32 || len(priv) == 0 {
+					continue
+				}
+				rh, sh, eh := SignHashed(newScript(stream), priv, e)
+				rz, sz, ez := SignZa(newScript(stream), priv, za, msg)
+				ri, si, ei := Sign(id, px, py, newScript(stream), priv, msg)
+				if (eh == nil) != (ez == nil) || (eh == nil) != (ei == nil) || !bytes.Equal(rh, rz) || !bytes.Equal(sh, sz) || !bytes.Equal(rh, ri) || !bytes.Equal(sh, si) {
+					r.Violation("sign-wrappers-differ-from-SignHashed:argument-shape", hk.D{"priv": hk.Hex(priv), "priv_len": len(priv), "msg_is_nil": msg == nil, "signhashed": hexOrNil(rh) + "," + errStr(eh), "signza": hexOrNil(rz) + "," + errStr(ez), "sign": hexOrNil(ri) + "," + errStr(ei)})
+				}
+			}
+			m := ref.SM2Sign(d, e, stream)
+			if m.R == nil {
+				continue
+			}
+			rB, sB := ref.B32(m.R), ref.B32(m.S)
+			type rs struct{ r, s []byte }
+			shapes := []rs{{rB, sB}, {append([]byte{0}, rB...), sB}, {rB, append([]byte{0}, sB...)}, {append(rng.Bytes(3), rB...), sB}, {rB, append(rng.Bytes(1), sB...)},
+				{rB[1:], sB}, {rB, sB[1:]}, {append(append([]byte{}, rB...), 0), sB}, {nil, sB}, {rB, nil}, {m.R.Bytes(), m.S.Bytes()}}
+			for _, sh := range shapes {
+				vh, _ := VerifyHashed(px, py, e, sh.r, sh.s)
+				vz, _ := VerifyZa(px, py, za, msg, sh.r, sh.s)
+				vi, _ := Verify(id, px, py, msg, sh.r, sh.s)
+				want := ref.SM2Verify(px, py, e, sh.r, sh.s)
+				if vh != want || vz != want || vi != want {
+					r.Violation("verify-wrappers-differ:argument-shape", hk.D{"r_len": len(sh.r), "s_len": len(sh.s), "msg_is_nil": msg == nil, "verifyhashed": vh, "verifyza": vz, "verify": vi, "model": want, "r": hexOrNil(sh.r), "s": hexOrNil(sh.s)})
+				}
+			}
+			r.Eval("wrap:argument-shapes")
+		}
+	}
+
 	// ---- PAIRS of rare dimensions: a large message (1 MiB and more, where an implementation may take another
 	//      route: streaming, pre-checks, chunking) together with a signature value on the edge of its range
 	//      (s = n-1, 1, 2, with leading zero bytes; r = n-1 for rejected ones). A valid signature with a
